@@ -205,7 +205,7 @@ def run_template(prop, template_path, repo_root=None, rlimit=30, timeout=600, ex
     for d in errors:
         prim = next((s_ for s_ in d.get("spans", []) if s_.get("is_primary")), None)
         txt = " ".join(t_["text"] for s_ in d.get("spans", []) for t_ in (s_.get("text") or []))
-        if "r43_cr ==" in txt and "closure" in d.get("message", ""):
+        if ("r43_cr ==" in txt or "r46_cr" in txt) and "closure" in d.get("message", ""):
             ln = prim["line_start"] if prim else 0
             it_ = next((it for it in meta["items"] if it["line_lo"] <= ln <= it["line_hi"]), None)
             if it_: auto_failed_items.add(it_["sel"])
